@@ -72,6 +72,55 @@ def corr_primitives(c):
             c.mismatch(f"netgen-world-{kind}-vs-jnp", op=line, model=m, impl=want, n=n, index=i)
 
 
+def corr_init(c):
+    """the generated `__init__` fragments (guard + declared shapes) against the real constructors"""
+    import equinox as eqx
+    from flowjax.bijections.bijection import AbstractBijection
+
+    class CondScalar(AbstractBijection):        # a scalar bijection WITH a condition: refused by both constructors
+        shape: tuple = ()
+        cond_shape: tuple = (1,)
+
+        def transform_and_log_det(self, x, condition=None):
+            return x + condition[0], jnp.zeros(())
+
+        def inverse_and_log_det(self, y, condition=None):
+            return y - condition[0], jnp.zeros(())
+
+        def transform(self, x, condition=None):
+            return x + condition[0]
+
+        def inverse(self, y, condition=None):
+            return y - condition[0]
+
+    def tok(sh):
+        return "none" if sh is None else (",".join(str(int(v)) for v in sh) or "-")
+
+    tfs = [("Affine()", B.Affine()), ("Affine(shape (2,))", B.Affine(jnp.zeros(2))), ("Affine(shape (1,))", B.Affine(jnp.zeros(1))),
+           ("conditional scalar", CondScalar()), ("Exp()", B.Exp())]
+    lines, wants = [], []
+    for desc, t in tfs:
+        for (ud, dim, cd) in ((1, 2, None), (1, 3, 2), (2, 5, None), (0, 1, 1)):
+            for kind in ("cinit", "minit"):
+                try:
+                    if kind == "cinit":
+                        o = B.Coupling(S.KEY, transformer=t, untransformed_dim=ud, dim=dim, cond_dim=cd, nn_width=2, nn_depth=1)
+                        want = f"{tok(o.shape)} {tok(o.cond_shape)} {o.untransformed_dim} {o.dim}"
+                    else:
+                        o = B.MaskedAutoregressive(S.KEY, transformer=t, dim=dim, cond_dim=cd, nn_width=2, nn_depth=1)
+                        want = f"{tok(o.shape)} {tok(o.cond_shape)}"
+                except ValueError:
+                    want = "ValueError"
+                head = f"gnet {kind} {tok(t.shape)} {tok(t.cond_shape)} " + (f"{ud} " if kind == "cinit" else "")
+                lines.append(head + f"{dim} {S.cd_tok(cd)} 2 1")
+                wants.append((want, desc, kind, dim, cd))
+                c.case(("gnet-init", kind, desc, dim, cd), True)
+                c.count(f"netgen:init:{kind}:{'raises' if want == 'ValueError' else 'constructs'}")
+    for line, got, (want, desc, kind, dim, cd) in zip(lines, vlib.run_model(lines), wants):
+        if got != want:
+            c.mismatch(f"netgen-generated-{kind}-vs-impl", op=line, model=got, impl=want, transformer=desc, dim=dim, cond_dim=cd)
+
+
 def _real(bij, x, y_in, cond):
     yt, ld = bij.transform_and_log_det(x, cond)
     xi, ldi = bij.inverse_and_log_det(y_in, cond)
@@ -81,6 +130,7 @@ def _real(bij, x, y_in, cond):
 
 def corr_gen(c, tier, rng, light=False):
     corr_primitives(c)
+    corr_init(c)
     maf, coup = _configs(tier, light)
     acts = list(S.ACTS)
     kinds = ("affine", "rqs", "minscale")
